@@ -64,6 +64,14 @@ func (n *dNode) Process(ctx context.Context, e *eventlogger.Event) (*eventlogger
 		n.h.b.IsAnyPipelineRegistered("t")
 		// ... including the pipeline map of the very type being sent (removing a pipeline that is not there)
 		n.h.b.RemovePipeline("t", "no-such-pipeline")
+		// ... and registering the node's own pipeline again with the very same definition: the traversal
+		// under way goes on through the nodes it was given
+		n.h.mu.Lock()
+		def, ok := n.h.defs[n.p]
+		n.h.mu.Unlock()
+		if ok {
+			n.h.b.RegisterPipeline(def)
+		}
 	}
 	var out *eventlogger.Event
 	var err error
@@ -104,6 +112,7 @@ type dispHarness struct {
 	idOf     map[eventlogger.NodeID][2]int
 	closedCh chan struct{}
 	closeOne sync.Once
+	defs     map[int]eventlogger.Pipeline
 	st       *stats
 	b        *eventlogger.Broker
 }
@@ -220,9 +229,16 @@ func runDispatch(c dispCase, seed uint64, st *stats, oracle func(string, ...any)
 				panic(err)
 			}
 		}
-		if err := b.RegisterPipeline(eventlogger.Pipeline{PipelineID: eventlogger.PipelineID(fmt.Sprintf("p%d", p)), EventType: "t", NodeIDs: ids}); err != nil {
+		def := eventlogger.Pipeline{PipelineID: eventlogger.PipelineID(fmt.Sprintf("p%d", p)), EventType: "t", NodeIDs: ids}
+		if err := b.RegisterPipeline(def); err != nil {
 			panic(err)
 		}
+		h.mu.Lock()
+		if h.defs == nil {
+			h.defs = map[int]eventlogger.Pipeline{}
+		}
+		h.defs[p] = def
+		h.mu.Unlock()
 	}
 	if len(c.outs) == 0 {
 		_ = b.SetSuccessThreshold("t", 0) // creates the graph
